@@ -492,6 +492,68 @@ theorem dedup_nodup : ∀ l : List (String × Int), (l.map (·.1)).Nodup → Lex
       unfold Lex.defaultPrios.dedup
       rw [if_neg hne, ih]
 
+theorem dedup_sub : ∀ (l : List (String × Int)) (x : String × Int), x ∈ Lex.defaultPrios.dedup l → x ∈ l
+  | [], x, h => by unfold Lex.defaultPrios.dedup at h; exact h
+  | [a], x, h => by unfold Lex.defaultPrios.dedup at h; exact h
+  | a :: b :: r, x, h => by
+      unfold Lex.defaultPrios.dedup at h
+      split at h
+      · have := dedup_sub (a :: r) x h
+        rcases List.mem_cons.1 this with rfl | hr
+        · simp
+        · simp [hr]
+      · rcases List.mem_cons.1 h with rfl | hr
+        · simp
+        · exact List.mem_cons.2 (Or.inr (dedup_sub (b :: r) x hr))
+termination_by l => l.length
+
+theorem dedup_head : ∀ (a : String × Int) (r : List (String × Int)), ∃ r', Lex.defaultPrios.dedup (a :: r) = a :: r'
+  | a, [] => ⟨[], by unfold Lex.defaultPrios.dedup; rfl⟩
+  | a, b :: r => by
+      unfold Lex.defaultPrios.dedup
+      split
+      · exact dedup_head a r
+      · exact ⟨_, rfl⟩
+termination_by a r => r.length
+
+theorem dedup_cover : ∀ (l : List (String × Int)) (x : String × Int), x ∈ l → ∃ y ∈ Lex.defaultPrios.dedup l, y.1 = x.1
+  | [], x, h => by simp at h
+  | [a], x, h => by
+      unfold Lex.defaultPrios.dedup
+      simp only [List.mem_singleton] at h ⊢
+      exact ⟨a, rfl, by rw [h]⟩
+  | a :: b :: r, x, h => by
+      unfold Lex.defaultPrios.dedup
+      split
+      · rename_i hab
+        rcases List.mem_cons.1 h with rfl | hr
+        · exact dedup_cover (x :: r) x (by simp)
+        · rcases List.mem_cons.1 hr with rfl | hr'
+          · obtain ⟨y, hy, hyk⟩ := dedup_cover (a :: r) a (by simp)
+            exact ⟨y, hy, hyk.trans hab⟩
+          · exact dedup_cover (a :: r) x (List.mem_cons.2 (Or.inr hr'))
+      · rcases List.mem_cons.1 h with rfl | hr
+        · exact ⟨x, by simp, rfl⟩
+        · obtain ⟨y, hy, hyk⟩ := dedup_cover (b :: r) x hr
+          exact ⟨y, List.mem_cons.2 (Or.inr hy), hyk⟩
+termination_by l => l.length
+
+/-- **`default_prios` in general** (no distinctness assumed): every entry is the id and tag of some sub-proposition, every
+    sub-proposition's id has an entry, and the entry of the smallest id is that of the FIRST sub-proposition carrying it in
+    the flattened order (`dedup_head`) — of several equal sub-propositions the first one met decides, as in `flatten()` -/
+theorem defaultPrios_sound_cover (t : P) :
+    (∀ x ∈ Lex.defaultPrios t, ∃ p ∈ subs t, x = (p.id, p.mt.prio.getD (-1))) ∧
+    (∀ p ∈ subs t, ∃ y ∈ Lex.defaultPrios t, y.1 = p.id) := by
+  unfold Lex.defaultPrios
+  simp only
+  constructor
+  · intro x hx
+    have := dedup_sub _ x hx
+    obtain ⟨p, hp, rfl⟩ := List.mem_map.1 this
+    exact ⟨p, (sortById_perm _).mem_iff.1 hp, rfl⟩
+  · intro p hp
+    exact dedup_cover _ (p.id, p.mt.prio.getD (-1)) (List.mem_map.2 ⟨p, (sortById_perm _).mem_iff.2 hp, rfl⟩)
+
 /-- **what `default_prios` is**, for a configurator whose flattened ids are pairwise distinct: one entry per
     sub-proposition — its `prio` tag, −1 where it has none -/
 theorem defaultPrios_spec (t : P) (hnd : ((sortById (subs t)).map (·.id)).Nodup) (x : String × Int) :
